@@ -26,6 +26,7 @@ type PropSpec struct {
 	QuickSecs   int               `json:"quick_timeout_s"`
 	ThoroughSecs int              `json:"thorough_timeout_s"`
 	MinObligations int            `json:"min_obligations"`
+	Exclude     []string          `json:"exclude_obligations"` // decided under another property
 }
 
 type BoundedSpec struct {
@@ -189,6 +190,7 @@ func checkMain(args []string) {
 			lines = append(lines, fmt.Sprintf("UNDECIDED function=%s reason=%s (%s)", rep.Key, rep.Status, rep.Reason))
 		}
 	}
+	var decidedElsewhere []string
 	failedFn := map[string]bool{}
 	for _, o := range all {
 		if !o.Canary && o.Status != "unsat" {
@@ -219,6 +221,16 @@ func checkMain(args []string) {
 			if o.Status == "sat" {
 				nCanaryReach++
 			}
+			continue
+		}
+		excluded := false
+		for _, pat := range ps.Exclude {
+			if ok, _ := regexp.MatchString(pat, o.Name); ok {
+				excluded = true
+			}
+		}
+		if excluded {
+			decidedElsewhere = append(decidedElsewhere, o.Name)
 			continue
 		}
 		nOb++
@@ -387,7 +399,7 @@ func checkMain(args []string) {
 			"by_backend": bbEv, "slowest": slowest, "samples": samples,
 			"canaries": map[string]int{"planted": nCanary, "shown_reachable": nCanaryReach},
 			"undecided": undecidedFns, "bounded": bounded, "undecided_fallback_rac": fallback,
-			"known_findings_hit": knownHit, "not_decided": ps.NotDecided,
+			"known_findings_hit": knownHit, "not_decided": ps.NotDecided, "decided_under_another_property": decidedElsewhere,
 			"load_secs": tLoad, "solver_timeout_s": secs,
 			"contract_files": w.Specs.Files,
 		},
